@@ -12,7 +12,7 @@ import xarray as xr
 ID = 'C15'
 RULE = ('rasters <= 12x12 (mostly <= 8x8) over alphabets of 1-4 values from structured generators (uniform noise, smoothed '
         'blobs, concentric nested rings, spirals, random spanning-tree mazes and combs = U-shapes needing multi-level merges, '
-        'holes touching the border, checkerboards / diagonal lines = 8-connected pinches, > 64 provisional region ids = lookup resize) plus noise, shapes 1x1, 1xN, Nx1, 2xN; '
+        'holes touching the border, checkerboards / diagonal lines = 8-connected pinches, > 64 provisional region ids = lookup resize, 2xN combs with N near 63/64/127/128 whose last merge lands in the last slot of region_lookup) plus noise, shapes 1x1, 1xN, Nx1, 2xN; '
         'int32/int64/uint8/uint32/float32/float64 rasters (float values dyadic, spaced >= 0.25 so _is_close is equality); mask '
         'absent / all-true / random / structured / all-false with bool/int/float mask dtype; connectivity 4 and 8; transform absent '
         'or dyadic affine (scales, flips, rotations, shears, offsets); 30% of the float rasters get +inf/-inf/NaN cells (inf equals only '
@@ -501,6 +501,28 @@ def g_growth(rng, ny, nx, k):
     return g + top
 
 
+def g_lastslot(rng, N=None, kind=None, v0=None):
+    """2 x N comb: row 0 alternates two values (N provisional ids), row 1 holds a bar that joins stripes so that the largest
+    merged ("upper") provisional id is len(region_lookup)-1 = max(64, N)-1 with no later resize: the merge recorded in the LAST
+    slot of region_lookup must survive the final relabelling.  N around 63/64/127/128."""
+    N = N or rng.choice([62, 63, 64, 65, 66, 126, 127, 128, 129, 130])
+    v0 = rng.choice([0, 1]) if v0 is None else v0
+    kind = rng.randrange(3) if kind is None else kind
+    row0 = [(v0 + i) % 2 for i in range(N)]
+    L = max(64, N)
+    b = min(N - 1, L - 2)
+    if row0[b] != row0[0] and kind == 0:
+        b -= 1
+    if kind == 0:            # whole row of the first stripe's value: joins every stripe of that value
+        row1 = [row0[0]] * (b + 1) + [2] * (N - 1 - b)
+    else:                    # short bar ending at cell b, joining the last two (kind 1) or last few stripes of that value
+        a = b - 2 * (1 if kind == 1 else rng.randint(1, 5))
+        row1 = [2] * N
+        for i in range(max(0, a), b + 1):
+            row1[i] = row0[b]
+    return [row0, row1]
+
+
 GENS = [('uniform', g_uniform), ('blobs', g_blobs), ('nested', g_nested), ('spiral', g_spiral), ('maze', g_maze),
         ('comb', g_comb), ('pinch', g_pinch), ('border-holes', g_border_holes)]
 
@@ -569,6 +591,9 @@ def gen_case(rng, combos, big=0.06):
     name, g = rng.choice(GENS)
     if rng.random() < 0.03:
         name, g, ny, nx = 'growth', g_growth, rng.randint(10, 13), rng.randint(10, 12)
+    elif rng.random() < 0.01:
+        grid0 = g_lastslot(rng)
+        name, g, ny, nx = 'last-slot', (lambda r, a, b, c: [row[:] for row in grid0]), 2, len(grid0[0])
     grid = g(rng, ny, nx, k)
     if rng.random() < 0.35:     # noise on top of the structure
         for _ in range(rng.randint(1, max(1, nx * ny // 8))):
@@ -782,6 +807,14 @@ def run(ctx):
                 case = dict(family='fixed', ny=ny, nx=nx, values=v, dtype='int64', mask=mask, mask_dtype=mk,
                             mask_kind='none' if mk is None else 'structured', connectivity=conn, transform=None)
                 ctx.count('fixed/conn%d/%s' % (conn, 'mask' if mk else 'nomask'))
+                check_case(ctx, pz, case, pending)
+    for N in (63, 64, 128):
+        for kind in (0, 1):
+            for conn in (4, 8):
+                v = g_lastslot(rng, N=N, kind=kind, v0=kind)
+                case = dict(family='last-slot', ny=2, nx=N, values=v, dtype='int64', mask=None, mask_dtype=None, mask_kind='none',
+                            connectivity=conn, transform=None)
+                ctx.count('last-slot/N=%d/conn%d' % (N, conn))
                 check_case(ctx, pz, case, pending)
     n = 3000 if ctx.quick() else 20000
     for t in range(n):
